@@ -32,6 +32,13 @@ Inductive ekind :=
 | KPublish (r c : nat) (hadold : bool) (out : list (nat * nat)) (* reactive.run.publish + value returned by f *)
 | KArm (c : nat) (wasinv : bool)                     (* reactive.handleInvalidate *)
 | KUnlock (r : nat)                                  (* reactive.run.unlock *)
+| KKeyLock (key : nat)                               (* reactive.cache.locked: cache.locker.Lock returned nil *)
+| KKeyUnlock (key : nat)                             (* reactive.cache.unlock: deferred cache.locker.Unlock *)
+| KFork (jid n : nat)                                (* harness: the compute function starts n goroutines *)
+| KBranchBegin (jid idx : nat)                       (* harness: first action of a branch goroutine *)
+| KBranchEnd (jid : nat)                             (* harness: a branch goroutine returns *)
+| KJoin (jid : nat)                                  (* harness: all branches returned, none with an error *)
+| KJoinFail (jid : nat) (cs : list nat)              (* harness: all branches returned, one with an error: the compute function returns it *)
 | KStopCancel (r : nat)                              (* reactive.stop.cancel *)
 | KStopMark (r : nat) (hadcomp : bool).              (* reactive.stop.mark *)
 
@@ -68,6 +75,18 @@ Fixpoint val_eqb (a b : list (nat * nat)) : bool :=
   | _, _ => false
   end.
 
+(* with goroutines inside a compute function the order in which pairs enter a value is the order of the
+   events; the harness joins its branches' results in branch order: compare as multisets *)
+Definition pair_leb (a b : nat * nat) : bool :=
+  Nat.ltb (fst a) (fst b) || (Nat.eqb (fst a) (fst b) && Nat.leb (snd a) (snd b)).
+Fixpoint val_insert (x : nat * nat) (l : list (nat * nat)) : list (nat * nat) :=
+  match l with
+  | [] => [x]
+  | h :: t => if pair_leb x h then x :: l else h :: val_insert x t
+  end.
+Definition val_sort (l : list (nat * nat)) : list (nat * nat) := fold_right val_insert [] l.
+Definition val_meqb (a b : list (nat * nat)) : bool := val_eqb (val_sort a) (val_sort b).
+
 (** Does event kind [k] name the critical section frame [f] stands at?  If so, the label argument. *)
 Definition match_arg (f : frame) (k : ekind) : option nat :=
   match f, k with
@@ -92,7 +111,14 @@ Definition match_arg (f : frame) (k : ekind) : option nat :=
   | FScript _ _ (OTimer :: _), KTimerNew _ => Some 1
   | FScript _ _ (OTimer :: _), KSkip => Some 0
   | FTimerReg _ n, KTimerReg n' _ => if Nat.eqb n n' then Some 0 else None
-  | FScript _ _ (OCache key _ :: _), KCacheGet key' _ => if Nat.eqb key key' then Some 0 else None
+  | FScript _ _ (OCache key _ :: _), KKeyLock key' => if Nat.eqb key key' then Some 0 else None
+  | FCacheGet _ key _ _, KCacheGet key' _ => if Nat.eqb key key' then Some 0 else None
+  | FKeyUnlock _ key, KKeyUnlock key' => if Nat.eqb key key' then Some 0 else None
+  | FScript _ _ (OPar _ :: _), KFork _ _ => Some 0
+  | FBranchBegin jid idx, KBranchBegin jid' idx' => if Nat.eqb jid jid' && Nat.eqb idx idx' then Some 0 else None
+  | FBranchEnd jid, KBranchEnd jid' => if Nat.eqb jid jid' then Some 0 else None
+  | FJoin _ jid, KJoin jid' => if Nat.eqb jid jid' then Some 0 else None
+  | FJoin _ jid, KJoinFail jid' _ => if Nat.eqb jid jid' then Some 0 else None
   | FScript _ _ (OCache _ _ :: _), KFail _ false => Some 1
   | FScript _ _ (OCache _ _ :: _), KSkip => Some 2
   | FScript _ _ (OFail :: _), KSkip => Some 0
@@ -145,8 +171,24 @@ Definition obs_ok (s : state) (f : frame) (rest : list frame) (k : ekind) : bool
   | KSkip => true
   | KCacheGet key child =>
       match f with
-      | FScript r _ _ => opt_nat_eqb child (cache_get (r_cache (getr s r)) key)
+      | FCacheGet r _ _ _ => opt_nat_eqb child (cache_get (r_cache (getr s r)) key)
       | _ => false
+      end
+  | KKeyLock _ => true
+  | KKeyUnlock _ => true
+  | KFork jid n =>
+      match f with
+      | FScript _ _ (OPar bs :: _) => Nat.eqb jid (length (s_joins s)) && Nat.eqb n (length bs)
+      | _ => false
+      end
+  | KBranchBegin _ _ => true
+  | KBranchEnd _ => true
+  | KJoin jid => negb (snd (nth jid (s_joins s) (0, false)))
+  | KJoinFail jid cs =>
+      snd (nth jid (s_joins s) (0, false)) &&
+      match match f with FJoin r _ => unwind r rest | _ => None end with
+      | Some (cs', _, _, _) => list_nat_eqb cs cs'
+      | None => false
       end
   | KCacheSet key child stored =>
       match f with
@@ -155,11 +197,11 @@ Definition obs_ok (s : state) (f : frame) (rest : list frame) (k : ekind) : bool
       end
   | KFail cs _ =>
       match match f with FScript r _ _ => unwind r rest | _ => None end with
-      | Some (cs', _) => list_nat_eqb cs cs'
+      | Some (cs', _, _, _) => list_nat_eqb cs cs'
       | None => false
       end
   | KPublish r c hadold out =>
-      Bool.eqb hadold (is_some (r_comp (getr s r))) && val_eqb out (n_val (getN s c))
+      Bool.eqb hadold (is_some (r_comp (getr s r))) && val_meqb out (n_val (getN s c))
   | KArm c wasinv => Bool.eqb wasinv (n_inv (getN s c))
   | KUnlock _ => true
   | KStopCancel _ => true
@@ -244,9 +286,18 @@ Definition task_event (s : state) (b : list (nat * nat)) (gid : nat) (k : ekind)
       end
   end.
 
+(** the state hypothesis of the progress theorem, evaluated on every state the replay visits *)
+Definition frame_self_hit (s : state) (f : frame) : bool :=
+  match f with
+  | FCacheGet r key _ c => opt_nat_eqb (cache_get (r_cache (getr s r)) key) (Some c)
+  | _ => false
+  end.
+Definition no_self_hitb (s : state) : bool := negb (existsb (frame_self_hit s) (concat (map snd (s_tasks s)))).
+
 (** replay: [inl s] = accepted, final state; [inr (code, index)] =
     1 no task can be at that critical section; 2 the section is not enabled in the model;
-    3 a recorded observable differs; 4 an environment event is not enabled or its observable differs *)
+    3 a recorded observable differs; 4 an environment event is not enabled or its observable differs;
+    7 a cache lookup is about to return the computation that performs it (hypothesis of the progress theorem) *)
 Fixpoint replay (s : state) (b : list (nat * nat)) (i : nat) (es : list event) : state + (nat * nat) :=
   match es with
   | [] => inl s
@@ -254,7 +305,7 @@ Fixpoint replay (s : state) (b : list (nat * nat)) (i : nat) (es : list event) :
       match e with
       | ETask gid k =>
           match task_event s b gid k with
-          | inl (Some (s1, b1)) => replay s1 b1 (S i) t
+          | inl (Some (s1, b1)) => if no_self_hitb s1 then replay s1 b1 (S i) t else inr (7, i)
           | inl None => inr (1, i)
           | inr c => inr (c, i)
           end
@@ -293,7 +344,7 @@ Fixpoint outs_eqb (a : list rr) (b : list (option (list (nat * nat)))) : bool :=
   | [], [] => true
   | x :: s, y :: t =>
       match r_out x, y with
-      | Some u, Some v => val_eqb u v
+      | Some u, Some v => val_meqb u v
       | None, None => true
       | _, _ => false
       end && outs_eqb s t
